@@ -388,11 +388,12 @@ class GraphStepOracles(HashStepOracles):
             st = tags_of(s_) if s_ is not None else frozenset()
             if "seq" in st:
                 role = "next" if "next" in st else "cur"
+                # first_kmer() is the terminal k-mer of the Left end, last_kmer() that of the Right end — however the code names it
                 if name in ("get_kmer", "first_kmer"):
                     self.observe("first-kmer", role)
-                    return Opaque("K", {role, "first-kmer"})
+                    return Opaque("K", {role, "first-kmer", "term-kmer", "side-%s" % LEFT})
                 if name == "last_kmer":
-                    return Opaque("K", {role, "last-kmer"})
+                    return Opaque("K", {role, "last-kmer", "term-kmer", "side-%s" % RIGHT})
                 if name == "term_kmer":
                     d = dir_of(args[1])
                     self.observe("term-kmer", (role, d))
